@@ -3,6 +3,7 @@
 // checked operation by operation against an ordered-map reference model (DESIGN appendix A.2).
 #if defined(VARIANT_A) || defined(VARIANT_B)
 #include "libapi.h"
+#include "simfs.h"
 
 namespace {
 
@@ -168,7 +169,16 @@ struct MetaEngine : Engine {
 				o["k"] = "ADD"; o["key"] = base; o["value"] = gen_value_text(w, false, &nv, "\n");
 				keys.push_back(norm_key(base));
 			}
-			else if (k < 88) o["k"] = "RENDER";
+			else if (k < 86) o["k"] = "RENDER";
+			else if (k < 88) {
+				// the command line tool: -m lists keys, -e KEY extracts a value (src/main.c is one of the property's anchors)
+				if (!keys.empty() && w.chance(1, 2)) {
+					size_t which = (size_t)w.below(keys.size());
+					std::string base;
+					for (int i = 0; i < NKEYWORDS; i++) if (norm_key(KEYWORDS[i]) == keys[which]) base = KEYWORDS[i];
+					o["k"] = "CLI_VALUE"; o["key"] = spell_key(w, base);
+				} else o["k"] = "CLI_KEYS";
+			}
 			else if (k < 94) o["k"] = "E_PARSE";
 			else o["k"] = "E_CONVERT";
 			if (!o.has("k")) continue;
@@ -346,9 +356,33 @@ struct MetaEngine : Engine {
 					if (is_special(kv.first)) continue;
 					if (html.find(want) == std::string::npos) { fail(k, "complete_output_lacks_value", kind, "expected " + Json(want).dump() + " in the HTML head"); break; }
 				}
+			} else if (kind == "CLI_KEYS" || kind == "CLI_VALUE") {
+				// multimarkdown -m FILE / multimarkdown -e KEY FILE on the client's current text, stdout captured
+				SimFile f; f.versions.push_back(c.text());
+				g_sim.files["/sim/m/doc.txt"] = f;
+				std::vector<std::string> args = {"multimarkdown"};
+				if (kind == "CLI_KEYS") args.push_back("-m"); else { args.push_back("-e"); args.push_back(op.gets("key")); }
+				args.push_back("/sim/m/doc.txt");
+				std::vector<char *> argv; for (auto & a2 : args) argv.push_back(&a2[0]); argv.push_back(nullptr);
+				char * obuf = nullptr; size_t olen = 0;
+				FILE * saved = stdout;
+				FILE * ms = open_memstream(&obuf, &olen);
+				stdout = ms;
+				int rc = IN_LIB(mmd_cli_main((int)args.size(), argv.data()));
+				fflush(ms); stdout = saved; fclose(ms);
+				std::string got(obuf ? obuf : "", olen);
+				free(obuf);
+				probes["cli_queries"]++;
+				if (kind == "CLI_KEYS") {
+					if (got != model_keys(M)) fail(k, "keys_wrong", kind, "multimarkdown -m printed " + Json(got).dump() + " want " + Json(model_keys(M)).dump() + " (rc " + std::to_string(rc) + ")");
+				} else {
+					std::string nk = norm_key(op.gets("key")), want;
+					for (auto & kv : M) if (kv.first == nk) want = kv.second + "\n";
+					if (got != want) fail(k, "value_wrong", kind, "multimarkdown -e " + nk + " printed " + Json(got).dump() + " want " + Json(want).dump());
+				}
 			} else if (kind == "E_PARSE") { if (c.kind == "E") IN_LIB_V(mmd_engine_parse_string(c.e)); }
 			else if (kind == "E_CONVERT") { if (c.kind == "E") { char * r = IN_LIB(mmd_engine_convert(c.e, 0)); free(r); } }
-			if (updated && (kind == "HAS" || kind == "KEYS" || kind == "VALUE" || kind == "RENDER")) query_after_update = true;
+			if (updated && (kind == "HAS" || kind == "KEYS" || kind == "VALUE" || kind == "RENDER" || kind == "CLI_KEYS" || kind == "CLI_VALUE")) query_after_update = true;
 			g_log.ev("op", kind + ":" + digest(c.text()));
 			prev = kind;
 			executed++;
